@@ -56,10 +56,12 @@ def subspaces(tier):
     out += [dict(shape=[1], machines=[[0]], mode="benchmarks", part=i) for i in range(4)]
     out += C.structure_subspaces(s3, 2, False, mode="immutable")
     out += C.structure_subspaces(D.shapes(2, 2), 2, True, only_flexible=True, mode="immutable")
+    s5 = [s for s in D.shapes(3, 5) if sum(s) == 5]
+    out += C.structure_subspaces(s5, 3, False, canonical=True, mode="schedules")
+    out += C.structure_subspaces(s5, 2, False, canonical=True, mode="sequences")
     if tier == "thorough":
-        s5 = [s for s in D.shapes(3, 5) if sum(s) == 5]
-        out += C.structure_subspaces(s5, 3, False, canonical=True, mode="schedules")
         out += C.structure_subspaces(s5, 3, False, canonical=True, mode="sequences")
+        out += C.structure_subspaces([(2, 2, 2), (3, 3), (3, 2, 1), (4, 2)], 3, False, canonical=True, mode="schedules")
         out += C.structure_subspaces([s for s in s4 if sum(s) == 4], 2, False, mode="immutable")
     return out
 
